@@ -78,6 +78,9 @@ structure State where
   threshold : Int
   /-- `self._ref_script_size()` -/
   refScriptSize : Int
+  /-- `self.fee_buffer or 0`: added to every fee estimate, so the fee of the built transaction is at most
+  `max_tx_fee + fee_buffer` -/
+  feeBuffer : Int := 0
   deriving Repr, Inhabited
 
 inductive Err
@@ -166,10 +169,10 @@ def finish (cpb amt thr : Int) (maxInputs : Nat) (addr : Bytes) (cols : List Utx
 
 /-- `(max_tx_fee(...) * collateral_percent + 99) // 100` (`Int` `/` is floor division for the positive divisor 100):
 the ceiling of `max_tx_fee * percent / 100` -/
-def collateralAmount (p : Params) (refScriptSize : Int) : Option Int :=
+def collateralAmount (p : Params) (refScriptSize : Int) (feeBuffer : Int := 0) : Option Int :=
   match maxTxFee p.fee refScriptSize with
   | none => none
-  | some mf => some ((mf * p.percent + 99) / 100)
+  | some mf => some (((mf + feeBuffer) * p.percent + 99) / 100)
 
 /-- `_set_collateral_return` -/
 def run (p : Params) (st : State) : Except Err Result :=
@@ -178,7 +181,7 @@ def run (p : Params) (st : State) : Except Err Result :=
     match st.retAddr with
     | none => .ok ⟨st.explicit, none, none⟩
     | some addr =>
-      match collateralAmount p st.refScriptSize with
+      match collateralAmount p st.refScriptSize st.feeBuffer with
       | none => .error .refScriptSize
       | some amt =>
         let cols := if st.explicit.isEmpty then selectAuto p.cpb amt st.threshold addr st else st.explicit
